@@ -29,7 +29,7 @@ HierMust(p) == HierIdsIncreasing(p) /\ TassaCond(HierTop(p), MaxOf(HoldersOf(p))
 HierSlack(p) == HierIdsIncreasing(p) /\ TassaCond(HierTop(p) + 1, MaxOf(HoldersOf(p)) + 1)
 RefusalAllowed(p) == IF p.fam = "hier" THEN ~HierSlack(p) ELSE ~SomeSetQualified(p)
 
-RejectTags == {"coord", "short", "long0", "long", "outsider", "vvshort", "vvidentity", "vvidentity2", "vvlong"}
+RejectTags == {"coord", "pair", "swap", "short", "long0", "long", "outsider", "vvshort", "vvidentity", "vvidentity2", "vvlong"}
 
 \* ---------------------------------------------------------------- Feldman
 \* cases against an honest dealing (V0, shares): the equation decides; the corollaries are asserted by tag
@@ -83,7 +83,7 @@ ShardOK(e) ==
                 /\ \A k \in 1..Len(c.pks) : c.pks[k].v = LiftedShareOf(e.M, e.lab, c.V, c.pks[k].id)
 
 \* ---------------------------------------------------------------- Pedersen
-PRejectTags == {"sec", "bl", "short", "long0", "vvshort", "vvidentity", "vvlong"}
+PRejectTags == {"sec", "bl", "pair", "short", "long0", "vvshort", "vvidentity", "vvlong"}
 PCaseOK(e, c, secs, bls) ==
   c.built =>
     /\ c.ok = VerifyP(e.M, e.lab, e.eta, c.id, c.sec, c.bl, c.V)
